@@ -221,6 +221,8 @@ func (ex *Exec) setResult(c *ssa.Call, r Val) {
 		if name != "" {
 			if ex.callOrd == nil {
 				ex.callOrd = map[string]int{}
+			}
+			if ex.captured == nil {
 				ex.captured = map[string]Val{}
 			}
 			key := fmt.Sprintf("%s#%d", name, ex.callSiteOrdinal(c, name))
